@@ -3,12 +3,17 @@ from __future__ import annotations
 
 import itertools
 
-OUTCOMES = ["ok", "s1", "s2", "s3", "s4", "s5", "s6", "tid", "ctl"]
-READ_SETS = [[9], [9, 10], [2, 9, 10]]
-WRITE_SETS = [[9], [12], [9, 10], [9, 12], [9, 10, 12]]
-READABLE = {2, 9, 10}
-VALS = {9: True, 10: 7, 12: 3}
-EXPECT = {2: "Acc", 9: False, 10: 50}
+OUTCOMES = ["ok", "s1", "s2", "s3", "s4", "s5", "s6", "s7", "s128", "s255", "tid", "ctl"]  # s7/s128/s255: status bytes the table does not define
+READ_SETS = [[9], [9, 10], [2, 9, 10], [9, 13], [13, 41]]
+WRITE_SETS = [[9], [12], [9, 10], [9, 12], [9, 10, 12], [13], [9, 13], [14, 10], [13, 9, 14]]
+READABLE = {2, 9, 10, 13, 41}
+VALS = {9: True, 10: 7, 12: 3, 13: False, 14: 4}
+EXPECT = {2: "Acc", 9: False, 10: 50, 13: True, 41: "Sub"}
+AID = {13: 2, 14: 2, 41: 2}
+
+
+def aid(i):
+    return AID.get(i, 1)
 
 
 def _script(opcode, ids, vec):
@@ -35,12 +40,14 @@ def case_coap_read(p):
             rig.acc.script = _script(0x03, ids, vec)
             det = {"transport": "coap", "ids": ids, "outcomes": list(vec)}
             try:
-                res = rig.run(rig.pairing.get_characteristics([(1, i) for i in ids]))
+                res = rig.run(rig.pairing.get_characteristics([(aid(i), i) for i in ids]))
             except Exception as e:  # noqa: BLE001
+                if any(o in ("s7", "s128", "s255") for o in vec):
+                    continue  # a status byte outside the table: failing the whole call is acceptable
                 out.append((f"coap:read-raises:{type(e).__name__}", dict(det, err=str(e)[:200])))
                 break
             for i, o in zip(ids, vec):
-                r = res.get((1, i))
+                r = res.get((aid(i), i))
                 if o == "ok":
                     if r is None or r.get("value") != EXPECT[i] or r.get("status"):
                         out.append(("coap:read-value-wrong-or-attributed-to-other-item", dict(det, key=i, got=r)))
@@ -72,7 +79,7 @@ def case_coap_write(p):
             del notes[:]
             det = {"transport": "coap", "ids": ids, "outcomes": list(vec)}
             try:
-                res, exc = rig.run(rig.pairing.put_characteristics([(1, i, VALS[i]) for i in ids])), None
+                res, exc = rig.run(rig.pairing.put_characteristics([(aid(i), i, VALS[i]) for i in ids])), None
             except Exception as e:  # noqa: BLE001
                 res, exc = {}, e
             notified = set()
@@ -83,7 +90,7 @@ def case_coap_write(p):
                     out.append((f"coap:write-raises-though-nothing-rejected:{type(exc).__name__}", dict(det, err=str(exc)[:200])))
                 continue
             for i, o in zip(ids, vec):
-                r = res.get((1, i))
+                r = res.get((aid(i), i))
                 if o.startswith("s"):
                     if r is None or not r.get("status"):
                         out.append(("coap:rejected-write-not-reported", dict(det, key=i)))
